@@ -1,4 +1,5 @@
 import NbioVerif.Properties.C13
+#print axioms Ws.rfcCfg_eq
 #print axioms Ws.c13_partial
 #print axioms Ws.hdrCheck_strict
 #print axioms Ws.run_strict
@@ -7,6 +8,9 @@ import NbioVerif.Properties.C13
 #print axioms Ws.c13_ping_pong
 #print axioms Ws.c13_close_close
 #print axioms Ws.c13_decoder
+#print axioms Ws.c13_spec_helpers
+#print axioms Ws.c13_close_reply
+#print axioms Ws.c13_frame_table_is_hdrCheck
 #print axioms Ws.c13_validFrame_table
 #print axioms Ws.c13_frame_rfc
 #print axioms Ws.c13_closeCode_table
